@@ -35,11 +35,35 @@ def truth_positions(fn_node):
       yield n.operand
 
 
+# lists whose ELEMENTS are numeric-or-None (per-input bounds)
+NUMERIC_LISTS = ('input_min', 'input_max', 'lower_bounds', 'upper_bounds',
+                 'input_keypoints', 'keypoints')
+
+
+def element_vars(fn_node, lists=NUMERIC_LISTS):
+  """loop / comprehension variables that range over the elements of a
+  numeric-or-None list (`for val in input_min or [...]`)."""
+  out = set()
+  for n in ast.walk(fn_node):
+    if isinstance(n, (ast.For, ast.comprehension)) and isinstance(
+        n.target, ast.Name):
+      for x in ast.walk(n.iter):
+        d = dotted(x)
+        if d and d.split('.')[-1] in lists and not isinstance(
+            getattr(x, 'ctx', None), ast.Store):
+          # `zip(a, b)` style iteration binds tuples, not elements
+          if not (isinstance(n.iter, ast.Call) and dotted(n.iter.func) in (
+              'zip', 'enumerate')):
+            out.add(n.target.id)
+  return out
+
+
 def find_truth_tests(fn_node, names=NUMERIC_OPTS):
   out = []
+  elems = element_vars(fn_node)
   for e in truth_positions(fn_node):
     d = dotted(e)
-    if d and d.split('.')[-1] in names:
+    if d and (d.split('.')[-1] in names or d in elems):
       out.append((e, d))
   return out
 
@@ -49,15 +73,16 @@ def f(values, default_value=None, output_min=None):
   if default_value:
     values = values[values != default_value]
   x = 1 if not output_min else 2
+  lows = [v or -1.0 for v in input_min or [None]]
   return values
 '''
 
 
 def selfcheck():
   hits = find_truth_tests(ast.parse(_POSITIVE))
-  if len(hits) != 2:
+  if len(hits) != 3:
     raise AnalysisError('N0 self-check: embedded positive example matched %d '
-                        'sites instead of 2' % len(hits))
+                        'sites instead of 3' % len(hits))
 
 
 def check(prog, res, fns, rule='N0'):
